@@ -9,7 +9,12 @@ Spec: spec/Calendar.tla.  Five machines in one module:
          day argument;
   shift  EOMONTH / EDATE for month shifts -1200..1200 from a set of starts;
   time   the clock over the 86 400 seconds of a day (+ sub-second offsets);
-  yf     YEARFRAC argument pairs, their swaps and the bases 0..4.
+  yf     YEARFRAC argument pairs, their swaps and the bases 0..4;
+  frac   arguments with a fraction (quarters): DATE(y, m, d) along lines of the
+         -40..60 grid, EOMONTH / EDATE from every quarter of a start day (a
+         date-time) with the months argument walking by quarters.  The
+         functions use the whole part; for a negative argument truncation
+         and floor are both allowed.
 Binding: TLC prints one vector per state (the calendar machine: one line per
 month start; the days in between are derived from consecutive lines of TLC's
 output only).  Every vector is executed on the real pycel functions through
@@ -41,7 +46,7 @@ PER_KIND_CAP = 3         # ... per (function, access path, exception type)
 _CALL = object()         # 'no result supplied: call the library function'
 
 ARG_ACTIONS = ('NextDayArg', 'NextMonthArg', 'NextShift', 'Tick',
-               'SwapDates', 'NextBasis')
+               'SwapDates', 'NextBasis', 'NextFrac')
 
 
 # ---------------------------------------------------------------------------
@@ -169,10 +174,16 @@ def wrapper(tier, modes, rnd, tag):
         body += [
             'RndShiftStarts == BigShiftStarts \\cup {' + pick(60, 1, MAX_SERIAL) + '}',
             'RndYfDays == BigYfDays \\cup {' + pick(20, 0, MAX_SERIAL) + '}',
-            'RndDateYears == BigDateYears \\cup {' + pick(6, 0, 9999) + '}']
+            'RndDateYears == BigDateYears \\cup {' + pick(6, 0, 9999) + '}',
+            # numerators of years with a fraction (below 9999: the whole part
+            # of 9999.25 is a legal year only if the fraction is dropped first)
+            'RndFracYears == BigFracYears \\cup {' + pick(6, 0, 4 * 9999 - 1) + '}',
+            'RndFracStarts == BigFracStarts \\cup {' + pick(20, 1, MAX_SERIAL) + '}']
         cfg = (cfg.replace('BigShiftStarts', 'RndShiftStarts')
                .replace('BigYfDays', 'RndYfDays')
-               .replace('BigDateYears', 'RndDateYears'))
+               .replace('BigDateYears', 'RndDateYears')
+               .replace('BigFracYears', 'RndFracYears')
+               .replace('BigFracStarts', 'RndFracStarts'))
     body.append('====')
     with open(os.path.join(d, mod + '.tla'), 'w') as f:
         f.write('\n'.join(body) + '\n')
@@ -377,14 +388,14 @@ def run(tier, seed):
     # the argument machines beside it.
     out = {}
     if quick:
-        run_tlc(tier, ['cal', 'date', 'shift', 'time', 'yf'],
+        run_tlc(tier, ['cal', 'date', 'shift', 'time', 'yf', 'frac'],
                 random.Random(seed), 'args', 8, True, out)
         t_cal = None
     else:
         t_cal = threading.Thread(target=run_tlc, args=(
             tier, ['cal'], random.Random(seed), 'cal', 1, False, out))
         t_cal.start()
-        run_tlc(tier, ['date', 'shift', 'time', 'yf'], random.Random(seed + 1),
+        run_tlc(tier, ['date', 'shift', 'time', 'yf', 'frac'], random.Random(seed + 1),
                 'args', 8, True, out)
     res = out['args']
     if isinstance(res, BaseException):
@@ -395,7 +406,7 @@ def run(tier, seed):
         if res.coverage.get(act, (0, 0))[1] == 0:
             raise tlc.MachineryFailure(f'vacuous: action {act} never taken')
     v.add_tlc(res, 'Calendar_mc (all machines)' if quick
-              else 'Calendar_big (date, shift, time, yf)')
+              else 'Calendar_big (date, shift, time, yf, frac)')
     phase['wait_tlc_args'] = round(time.time() - t0, 1)
     if len(res.json) < res.distinct - (0 if not quick else QUICK_CAL_STATES - N_MONTHS - 3):
         raise tlc.MachineryFailure(
@@ -407,13 +418,15 @@ def run(tier, seed):
     for kind, key in (('date', lambda x: (x['y'], x['m'], x['d'])),
                       ('shift', lambda x: (x['n'], x['k'])),
                       ('time', lambda x: x['s']),
-                      ('yf', lambda x: (x['a'], x['b'], x['basis'], x['swapped']))):
+                      ('yf', lambda x: (x['a'], x['b'], x['basis'], x['swapped'])),
+                      ('fdate', lambda x: (x['y'], x['m'], x['d'], x['walk'])),
+                      ('fshift', lambda x: (x['n'], x['q'], x['k']))):
         if len({key(x) for x in by.get(kind, [])}) != len(by.get(kind, [])):
             # split chains that did not merge into one another
             raise tlc.MachineryFailure(f'duplicate {kind} vectors in the export')
     sheet = Sheet()
-    fbudget = dict(date=1500, shift=1500, time=1000, yf=400, cal=3000) if quick \
-        else dict(date=20000, shift=20000, time=15000, yf=3000, cal=60000)
+    fbudget = dict(date=1500, shift=1500, time=1000, yf=400, cal=3000, frac=1000) if quick \
+        else dict(date=20000, shift=20000, time=15000, yf=3000, cal=60000, frac=12000)
 
     # -- DATE(y, m, d), m, d in -40..60
     j = Judge()
@@ -445,6 +458,42 @@ def run(tier, seed):
             j.check('EDATE', args, vec['edate'], via='formula =EDATE(A1,K1)', got=g2)
     for vec in shifts[1200:1202]:
         v.sample(vec)
+    total_bad += j.merge_into(v, counter)
+
+    # -- arguments with a fraction: numerators over den, whole numbers as int
+    def arg(num, den):
+        return num // den if num % den == 0 else num / den
+
+    j = Judge()
+    fdates, fshifts = by.get('fdate', []), by.get('fshift', [])
+    if not fdates or not fshifts:
+        raise tlc.MachineryFailure('no vectors of the frac machine in the export')
+    pf = min(1.0, fbudget['frac'] / max(1, len(fdates)))
+    for vec in fdates:
+        args = tuple(arg(vec[a], vec['den']) for a in 'ymd')
+        j.check('DATE', args, vec['allowed'])
+        if rnd.random() < pf:
+            got, = sheet.get(dict(G1=args[0], H1=args[1], I1=args[2]), ['J1'])
+            j.check('DATE', args, vec['allowed'], via='formula =DATE(G1,H1,I1)', got=got)
+    v.sample(fdates[len(fdates) // 2])
+    pf = min(1.0, fbudget['frac'] / max(1, len(fshifts)))
+    for vec in fshifts:
+        den = vec['den']
+        start, months = arg(vec['n'] * den + vec['q'], den), arg(vec['k'], den)
+        j.check('EOMONTH', (start, months), vec['eomonth'])
+        j.check('EDATE', (start, months), vec['edate'])
+        if vec['k'] % (5 * den) == 0:      # the parts of a date-time are those of its day
+            for fn in ('YEAR', 'MONTH', 'DAY', 'WEEKDAY'):
+                j.check(fn, (start,), vec[fn.lower()])
+        if rnd.random() < pf:
+            got = sheet.get(dict(A1=start, K1=months), ['L1', 'M1', 'B1', 'C1', 'D1', 'E1'])
+            j.check('EOMONTH', (start, months), vec['eomonth'],
+                    via='formula =EOMONTH(A1,K1)', got=got[0])
+            j.check('EDATE', (start, months), vec['edate'],
+                    via='formula =EDATE(A1,K1)', got=got[1])
+            for fn, g in zip(('YEAR', 'MONTH', 'DAY', 'WEEKDAY'), got[2:]):
+                j.check(fn, (start,), vec[fn.lower()], via=f'formula ={fn}(A1)', got=g)
+    v.sample(fshifts[len(fshifts) // 2])
     total_bad += j.merge_into(v, counter)
 
     # -- YEARFRAC symmetry (value not judged)
@@ -567,7 +616,8 @@ def run(tier, seed):
     v.sample(dict(t='cal', month_start=months[1], derived='days 32..60 of 1900-02'))
 
     phase['drive_cal'] = round(time.time() - t0, 1)
-    v.traces = ndays + 1 + n_date + len(shifts) + n_pairs + len(times)
+    v.traces = ndays + 1 + n_date + len(shifts) + n_pairs + len(times) \
+        + len(fdates) + len(fshifts)
     v.extra.update(
         exhaustive=not quick,
         phase_elapsed_s=phase,
@@ -581,6 +631,10 @@ def run(tier, seed):
         date_vectors=n_date, date_args='m, d in -40..60',
         shift_vectors=len(shifts), shift_range='-1200..1200',
         yearfrac_pairs=n_pairs, yearfrac_rule='symmetry only, bases 0..4',
+        frac_date_vectors=len(fdates), frac_shift_vectors=len(fshifts),
+        frac_rule='arguments in quarters; DATE along lines of the -40..60 grid, '
+                  'EOMONTH/EDATE from every quarter of a start day, months -30..30 '
+                  'by quarters; whole part, negative: truncation or floor',
         time_vectors=len(times), time_day_offsets=[p[0] for p in plan],
         time_deltas_ms=times[1]['deltas'],
         discrepancies_total=total_bad, discrepancies_stored=len(v.violations),
@@ -594,7 +648,9 @@ def run(tier, seed):
             'YEAR/MONTH/DAY/WEEKDAY/EOMONTH/EDATE of a serial > 2958465: '
             'any value, no exception',
             'YEARFRAC values (only symmetry and "two numbers")',
-            'fractional day / month arguments, WEEKDAY return types: not enumerated'],
+            'a negative month / day argument with a fraction: truncated or floored',
+            'a year argument with a fraction is only enumerated below 9999',
+            'WEEKDAY return types: not enumerated'],
         rule='one case = (function, arguments, access path); the allowed set '
              'comes from TLC; distinct = number of cases (distinct by construction)')
     v.assumptions = [
